@@ -16,6 +16,9 @@ CHECKS={
  "C15":dict(cat="exploration",technique="runtime monitoring: recording stub minifiers + reference dispatch model over exhaustively enumerated registration/call histories (bounded) and seeded random ones",
    text="Every history of registrations up to a length bound over 8 overlapping literal/pattern registrations (exhaustive), plus random histories up to length 40 over 17, with calls interleaved after every registration: the stub that runs, its parameters, Match's answer, the error and the bytes written are compared with a 15-line model of the documented rules; command minifiers are exercised sequentially and concurrently.",
    note="Model is my reading of the doc comments (literal first, then first registered matching pattern, else ErrNotExist); media-type splitting is only predicted for well-formed strings.",ref="DESIGN.md §5 C15"),
+ "C17":dict(cat="exploration",technique="runtime monitoring: exhaustive enumeration of the live table values (through verif-tagged accessors) checked against independent sources, each entry also driven through the public minifier and re-parsed",
+   text="Every entry of the entity, colour, trait, unit, MIME and perfect-hash tables is enumerated at run time from the package values and compared with independent sources (Go stdlib HTML5 entity table, x/net/html, my transcription of CSS named colours and of the HTML Standard's attribute/element classes); entities and colours are additionally run through the HTML/CSS/SVG minifiers and re-parsed; hash tables are probed with one-edit near-misses.",
+   note="Exhaustive over the finite tables. Trusts the Go stdlib entity table, x/net/html and my transcribed lists; two table entries (marquee, noscript as block) are known findings.",ref="DESIGN.md §5 C17"),
  "C18":dict(cat="exploration",technique="runtime monitoring: differential oracle (own RFC 2397 decoder + media-type normaliser + reference Mediatype) with canary redzones over exhaustive single-byte payloads and seeded generated URIs",
    text="DataURI is run on every single payload byte in three encodings x four media types (exhaustive), malformed forms, and seeded generated URIs against empty/stub/real registries; the result must decode (by my decoder) to the same normalised media type and to the payload the registered minifier produces, be validly and minimally encoded and never longer than a properly encoded input; Mediatype is compared with a reference on generated strings with quoted parameters.",
    note="Trusts my decoder/normaliser (RFC 2397/3986) and the dependency's escaping table for length optimality; three genuine dependency-level defects are listed as known findings with input guards.",ref="DESIGN.md §5 C18"),
@@ -41,7 +44,7 @@ def main():
           "technique":c["technique"],
         })
     na=[{"property_id":p,"reason":PENDING_REASON} for p in ALL if p not in CHECKS]
-    hooks_commits=[l.strip() for l in open(os.path.join(HERE,"MANIFEST.hooks")) if l.strip() and not l.startswith("#")] if os.path.exists(os.path.join(HERE,"MANIFEST.hooks")) else []
+    hooks_commits=[l.split()[0] for l in open(os.path.join(HERE,"MANIFEST.hooks")) if l.strip() and not l.startswith("#")] if os.path.exists(os.path.join(HERE,"MANIFEST.hooks")) else []
     m={"version":1,
        "setup_cmd":"./setup.sh",
        "hooks":{"guard":"verif","enable":"go build -tags verif (done by ./run for the harness and for cmd/minify)",
